@@ -107,8 +107,19 @@ def respell_semver(s, rng):
         return core
     if r < 0.7 and "-" not in core and core.count(".") < 2:
         return core + ".0" + plus + build
+    if r < 0.78:
+        # coerce strips leading zeros of the numeric components: equal value, other spelling
+        t = s.lstrip("vV")
+        return "0" * rng.randint(1, 2) + t
     if r < 0.85:
         return "v" + s.lstrip("vV")
+    if r < 0.9 and "-" not in s and "+" not in s:
+        # an empty pre-release / build part is dropped by coerce
+        return s + rng.choice(["-", "+", "-+", "."])
+    if r < 0.94 and "-" in core and core.count(".") >= 2:
+        # coerce rewrites every character outside [a-zA-Z0-9+.-] of the rest to "-"
+        head, _, pre = core.partition("-")
+        return head + rng.choice(["_", "~", "!"]) + pre + plus + build
     return " " + s + " "
 
 
@@ -522,7 +533,14 @@ def gen_legacy_openssl(rng):
         return s + rng.choice("abcdefghijklmnopqrstuvwxyz")
     if r < 0.8:
         return s + rng.choice("abz") + rng.choice("abz")
-    return s + rng.choice(["-beta1", "-beta2", "-beta3", "-alpha1", "-pre1", "-beta10", "-dev"])
+    if r < 0.86:
+        # all-digit third segment: `1.0.10`, and `1.0.05` (value (1,0,5,''), prints `1.0.5`)
+        return s + rng.choice(["0", "1", "5", "05", "10"])
+    if r < 0.9:
+        # digit right after the fix number followed by letters: rejected (`patch[0].isdigit()`)
+        return s + rng.choice(["0a", "2b", "1-beta1"])
+    return s + rng.choice(["-beta1", "-beta2", "-beta3", "-alpha1", "-pre1", "-beta10", "-dev",
+                           "-alpha", "-beta", "-betaX", "-", "A", "a1", "+a", "_1"])
 
 
 def gen_openssl(rng):
